@@ -38,7 +38,7 @@ def _fault_plan(rng, kinds, nmax=3):
             faults.append(dict(seam="fit", k=_k(rng, 25), len=gen._choice(rng, [1, 1, 2, 3, 4]),
                                kind=gen._choice(rng, ["entry", "mid"])))
         elif k == "update":
-            faults.append(dict(seam="update", k=_k(rng, 40)))
+            faults.append(dict(seam="update", k=_k(rng, 40), len=gen._choice(rng, [1, 1, 2, 3])))
         elif k == "acq":
             faults.append(dict(seam="acq", k=_k(rng, 80), kind=gen._choice(rng, ["nan_some", "nan_some", "nanvar_some", "negvar_some", "nan_all"]),
                                stride=rng.randrange(2, 9), phase=rng.randrange(0, 8)))
@@ -53,6 +53,11 @@ CFG = {
         profile=dict(name="c01", reuse_arrays_p=0.25, geom_w=[2, 3, 3, 4, 4, 2, 2, 1, 6], x0_w=[3, 3, 2, 1], where_w=[2, 2, 3, 5, 1],
                      cons_p=0.33, fam_w=[5, 2, 1, 0, 3, 1, 2]),
         n=dict(quick=128, thorough=4000), faulted=0.25, fault_kinds=["fit", "predict"],
+        # starts just inside a hard bound (beyond the constructor's nudge zone, within a search-mesh step) on coarse
+        # and default search meshes, linear and log coordinates: snapping to the mesh must not leave the box
+        extra=[(dict(name="c01edge", x0=["just_inside"], x0_w=[1], geom=["asym", "log", "mixedlog", "tight", "sym", "aligned"], geom_w=[3, 3, 2, 2, 1, 1],
+                     where=["face", "outside", "x0", "plausible"], where_w=[2, 2, 1, 1], cons_p=0.1, budget_kinds=["small"], noise_w=[5, 1, 1, 1],
+                     knobs=dict(search_grid_number=0.5, max_iter=0.0)), 32, 600)],
         rule="distinct scenarios whose run completed with >=1 poll and >=1 search step (every target/constraint call and the final log judged)",
     ),
     "C02": dict(
@@ -141,7 +146,9 @@ CFG = {
     "C15": dict(
         profile=dict(name="c15", noise_w=[3, 1, 3, 4], fam_w=[6, 2, 1, 0, 1, 1, 1], monitors=["acq"],
                      knobs=dict(n_train=0.5, n_search=0.5), cons_p=0.15, budget_kinds=["small", "mid", "mid"]),
-        n=dict(quick=96, thorough=3000),
+        # a quarter of the runs suffer a failed posterior update of a local fit (possibly repeated in its fallback) or a
+        # single failed hyperparameter fit: the surrogate that comes out must still be built on the nearest logged points
+        n=dict(quick=96, thorough=3000), faulted=0.25, fault_kinds=["update", "fit1"],
         # start (and optimum) far outside a plausible box of ordinary size inside a huge hard box: internal
         # coordinates of 1e6..1e8, where a careless squared-distance formula loses all its digits
         extra=[(dict(name="c15far", geom=["vast", "huge"], geom_w=[3, 1], x0=["far", "hard_not_plausible"], x0_w=[3, 1], where=["x0", "hard"], where_w=[3, 1],
